@@ -520,3 +520,257 @@ Proof.
   split; [unfold in_open_cell, padd, zpoint, px, py; cbn [fst snd]; repeat split; apply Qltb_iff; vm_compute; reflexivity|].
   vm_compute. tauto.
 Qed.
+
+(* ======================================================================================
+   ARBITRARY POLYGONS (Proofs/ClipAnyFacts.v) — no convexity hypothesis: non-convex,
+   self-intersecting, repeated vertices.  Together with C16_clip_area_additive /
+   C16_nine_cells_area / C16_plaquette_drawn_area (which never needed convexity) this is what
+   holds for non-convex plaquettes: the drawn translates' clipped pieces are polygons INSIDE the
+   closed cell whose vertices lie on the plaquette's boundary, and their signed areas add up to
+   the plaquette's.  Still NOT proved for non-convex plaquettes: pointwise cover (that the piece's
+   region is the intersection of the regions) and that signed area = measure of the region.
+   The overlap clipper (gsh_*: subject against a convex clip polygon, edge by edge) used by S for
+   "no two drawn polygons overlap": the piece it measures lies inside the clip polygon and inside
+   the cell, for ANY subject polygon. ================================================== *)
+From Koala Require Import Proofs.ClipAnyFacts.
+
+Theorem C16_clip_polygon_in_cell : forall P : polygon, Forall in_unit_square (clip_polygon P).
+Proof. exact clip_polygon_in_cell. Qed.
+Print Assumptions C16_clip_polygon_in_cell.
+
+(* the piece stays inside every convex set (seg_closed) that contains the polygon's vertices *)
+Theorem C16_clip_polygon_in_hull : forall (C : point -> Prop) (P : polygon),
+  seg_closed C -> Forall C P -> Forall C (clip_polygon P).
+Proof. exact clip_polygon_Forall. Qed.
+Print Assumptions C16_clip_polygon_in_hull.
+
+(* every vertex of a clipped polygon is a vertex of P or a point of a closed edge of P *)
+Theorem C16_clip_vertices_on_boundary : forall (xaxis : bool) (v : Q) (ge : bool) (P : polygon),
+  Forall (fun w => In w P \/ on_edge_of (edges P) w) (sh_clip1 xaxis v ge P).
+Proof. exact sh_clip1_on_boundary. Qed.
+Print Assumptions C16_clip_vertices_on_boundary.
+
+Theorem C16_clip_polygon_in_block : forall P : polygon, in_block P -> in_block (clip_polygon P).
+Proof. exact clip_polygon_in_block. Qed.
+Print Assumptions C16_clip_polygon_in_block.
+
+(* the general clipper: every output vertex on the kept side of the line through a, b *)
+Theorem C16_overlap_clip_inside : forall (ccw : bool) (a b : point) (S : polygon),
+  Forall (insP ccw a b) (gsh_clip1 ccw a b S).
+Proof. exact gsh_clip1_inside. Qed.
+Print Assumptions C16_overlap_clip_inside.
+
+(* the overlap piece of ANY subject S with an anticlockwise clip polygon p :: r lies on the left of
+   every edge of the clip polygon, also after the four cell clips, and inside the closed cell *)
+Theorem C16_overlap_piece_in_clipper : forall (S : polygon) (p : point) (r : list point),
+  Forall (in_poly (p :: r)) (clip_polygon (gsh_edges true p p r S)).
+Proof. exact overlap_piece_in_clipper. Qed.
+Print Assumptions C16_overlap_piece_in_clipper.
+
+Theorem C16_overlap_piece_in_cell : forall (S : polygon) (ccw : bool) (p : point) (r : list point),
+  Forall in_unit_square (clip_polygon (gsh_edges ccw p p r S)).
+Proof. exact overlap_piece_in_cell. Qed.
+Print Assumptions C16_overlap_piece_in_cell.
+
+(* non-vacuity / a NON-CONVEX plaquette: an L-shaped hexagon around the cell corner (1,1) (not convex,
+   in the block, no vertex on a cell line, one vertex in the cell): four translates are drawn, the
+   clipped areas add up to the area, every clipped vertex is in the cell *)
+Definition ex_L : polygon := [(1#2, 1#2); (3#2, 1#2); (3#2, 5#4); (5#4, 5#4); (5#4, 3#2); (1#2, 3#2)].
+Example C16_nonconvex_nonvacuous :
+  convexb ex_L = false /\ in_block ex_L /\
+  length (replicate_polygon ex_L (pads (poly_lines ex_L) true) (pads (poly_lines ex_L) false)) = 4%nat /\
+  fold_right Qplus 0 (map clipped_area2
+     (replicate_polygon ex_L (pads (poly_lines ex_L) true) (pads (poly_lines ex_L) false))) == area2 ex_L /\
+  0 < area2 ex_L /\
+  map (fun Q0 => length (clip_polygon Q0))
+      (replicate_polygon ex_L (pads (poly_lines ex_L) true) (pads (poly_lines ex_L) false)) = [6; 4; 4; 4]%nat.
+Proof.
+  split; [vm_compute; reflexivity|].
+  split. { unfold in_block, ex_L. repeat (apply Forall_cons || apply Forall_nil);
+           unfold px, py; cbn [fst snd]; repeat split; apply Qleb_iff; vm_compute; reflexivity. }
+  split; [vm_compute; reflexivity|].
+  split; [apply Qeqb_iff; vm_compute; reflexivity|].
+  split; [apply Qltb_iff; vm_compute; reflexivity|vm_compute; reflexivity].
+Qed.
+
+(* ======================================================================================
+   THE LATTICE-LEVEL STATEMENTS AND THE GLUE (Model/PlotGlue.v, Proofs/PlotGlueFacts.v)
+   ====================================================================================== *)
+From Coq Require Import Permutation.
+From Koala Require Import Model.Lattice Model.Dual Model.PlotGlue Proofs.PlotGlueFacts.
+Open Scope Q_scope.
+
+(* ---- "each edge is drawn exactly once": for EVERY lattice record, subset, labels, scheme and
+   directions for which plot_edges returns, the drawn list is — up to the order inside the
+   LineCollection — occurrence by occurrence of the selection, exactly the visible ones among the
+   nine translates of that edge, each carrying that occurrence's colour and direction.  No hypothesis:
+   this is the selection of the translates itself (an edge crossing the boundary is drawn as both of
+   its visible translates, each once; nothing else is drawn). ---- *)
+Theorem C16_plot_edges_each_once : forall (C : Type) (L : plat) (s : subset) (lab : labels) (scheme : list C) (dirs : labels)
+    (dr : list (seg * (C * Z))),
+  plot_edges L s lab scheme dirs = Ok dr ->
+  exists idx cols ds,
+    process_plot_args (length (pedges L)) s lab scheme = Ok (idx, cols) /\
+    broadcast_args dirs idx (length (pedges L)) = Ok ds /\
+    Permutation dr (flat_map (pieces_of L) (combine idx (combine cols ds))).
+Proof. exact @plot_edges_each_once. Qed.
+Print Assumptions C16_plot_edges_each_once.
+
+(* the pieces of one occurrence: translates by pairwise different offsets out of the nine — precisely
+   the visible ones *)
+Theorem C16_pieces_offsets_nodup : forall (C : Type) (L : plat) (icd : nat * (C * Z)),
+  exists ds : list (Z * Z), NoDup ds /\ incl ds nine /\
+    (forall d, In d ds <-> In d nine /\ visible (seg_translate (edge_seg L (fst icd)) (zpoint d)) = true) /\
+    pieces_of L icd = map (fun d => (seg_translate (edge_seg L (fst icd)) (zpoint d), snd icd)) ds.
+Proof. exact @pieces_offsets_nodup. Qed.
+Print Assumptions C16_pieces_offsets_nodup.
+
+(* ---- "the total length of the drawn segments inside the unit cell equals the total length of those
+   edges", for a whole call: selected edges in range (end point in [0,1)^2, less than one cell per
+   coordinate) and in generic position; clip_len = fraction of the edge inside the closed cell ---- *)
+Theorem C16_plot_edges_total_length : forall (C : Type) (L : plat) (s : subset) (lab : labels) (scheme : list C) (dirs : labels)
+    (dr : list (seg * (C * Z))) (idx : list nat) (cols : list C),
+  plot_edges L s lab scheme dirs = Ok dr ->
+  process_plot_args (length (pedges L)) s lab scheme = Ok (idx, cols) ->
+  Forall (fun i => edge_ok (edge_seg L i)) idx ->
+  drawn_total dr == inject_Z (Z.of_nat (length idx)).
+Proof. exact @plot_edges_total_length. Qed.
+Print Assumptions C16_plot_edges_total_length.
+
+(* ---- plot_dual = plot_edges on make_dual's lattice: the range hypotheses are PROVED for every
+   lattice (dual vertices are centres mod 1, dual crossings are rounded differences) ---- *)
+Theorem C16_dual_edge_in_range : forall (L : lattice) (D : qlattice) (e : nat),
+  make_dual L = DualOk D -> (e < length (qedges D))%nat ->
+  let s := edge_seg (plat_of_dual D) e in
+  in01 (seg_end s) /\
+  -(1#2) <= px (seg_start s) - px (seg_end s) /\ px (seg_start s) - px (seg_end s) <= 1#2 /\
+  -(1#2) <= py (seg_start s) - py (seg_end s) /\ py (seg_start s) - py (seg_end s) <= 1#2.
+Proof. exact dual_edge_in_range. Qed.
+Print Assumptions C16_dual_edge_in_range.
+
+(* so plot_dual draws every selected dual edge in full, each translate once; the only hypothesis left
+   is generic position of the selected dual edges *)
+Theorem C16_plot_dual_total_length : forall (C : Type) (L : lattice) (D : qlattice) (s : subset) (lab : labels)
+    (scheme : list C) (dirs : labels) (dr : list (seg * (C * Z))) (idx : list nat) (cols : list C),
+  make_dual L = DualOk D ->
+  plot_dual L s lab scheme dirs = DPDrawn (Ok dr) ->
+  process_plot_args (length (qedges D)) s lab scheme = Ok (idx, cols) ->
+  Forall (fun i => generic_edge (edge_seg (plat_of_dual D) i)) idx ->
+  drawn_total dr == inject_Z (Z.of_nat (length idx)) /\
+  Permutation dr (flat_map (pieces_of (plat_of_dual D))
+                           (combine idx (combine cols (match broadcast_args dirs idx (length (qedges D)) with Ok ds => ds | Error _ => [] end)))).
+Proof. exact @plot_dual_total_length. Qed.
+Print Assumptions C16_plot_dual_total_length.
+
+(* ---- colour resolution ---- *)
+(* a str scheme is the one-colour scheme *)
+Theorem C16_str_scheme_constant : forall (N : nat) (s : subset) (c : ustr) (idx : list nat),
+  subset_indices N s = Ok idx ->
+  process_plot_args_c N s (LScalar 0) (SchemeStr c) None = Ok (idx, repeat c (length idx)).
+Proof. exact str_scheme_constant. Qed.
+Print Assumptions C16_str_scheme_constant.
+
+(* color= replaces the first scheme entry by the keyword's colour cut to the scheme's dtype width *)
+Theorem C16_resolve_scheme_kw : forall (sa : scheme_arg) (c : ustr) (sch : list ustr),
+  resolve_scheme sa (Some c) = Ok sch ->
+  exists c0 r, scheme_list sa = c0 :: r /\ sch = firstn (ustr_width (c0 :: r)) c :: r.
+Proof. exact resolve_scheme_kw. Qed.
+Print Assumptions C16_resolve_scheme_kw.
+
+Theorem C16_resolve_scheme_kw_fits : forall (sa : scheme_arg) (c c0 : ustr) (r : list ustr),
+  scheme_list sa = c0 :: r -> (length c <= ustr_width (c0 :: r))%nat ->
+  resolve_scheme sa (Some c) = Ok (c :: r).
+Proof. exact resolve_scheme_kw_fits. Qed.
+Print Assumptions C16_resolve_scheme_kw_fits.
+
+Theorem C16_resolve_scheme_kw_other_labels : forall (sa : scheme_arg) (c : ustr) (sch : list ustr) (z : Z),
+  resolve_scheme sa (Some c) = Ok sch ->
+  z <> 0%Z -> z <> (- Z.of_nat (length (scheme_list sa)))%Z ->
+  scheme_at sch z = scheme_at (scheme_list sa) z.
+Proof. exact resolve_scheme_kw_other_labels. Qed.
+Print Assumptions C16_resolve_scheme_kw_other_labels.
+
+(* REFUTED (finding, replayed on the implementation): "with color=c the label-0 elements are handed
+   the colour c" — default scheme and color='lightgrey' give 'lightgr' *)
+Theorem C16_color_kw_refuted :
+  exists (sa : scheme_arg) (c : ustr) (sch : list ustr),
+    resolve_scheme sa (Some c) = Ok sch /\ nth_error sch 0 <> Some c /\
+    nth_error sch 0 = Some (firstn 7 c).
+Proof. exact color_kw_refuted. Qed.
+Print Assumptions C16_color_kw_refuted.
+
+Theorem C16_plot_plaquettes_kw : forall (L : plat) (pls : list plaq) (s : subset) (lab : labels) (sa : scheme_arg) (k : ustr)
+    (r : list (list polygon * ustr)),
+  plot_plaquettes_c L pls s lab sa (Some k) = Ok r -> Forall (fun pc => snd pc = k) r.
+Proof. exact plot_plaquettes_c_kw. Qed.
+Print Assumptions C16_plot_plaquettes_kw.
+
+Theorem C16_plot_vertices_kw_raises : forall (L : plat) (s : subset) (lab : labels) (sa : scheme_arg) (k : ustr) (r : list (point * ustr)),
+  plot_vertices_c L s lab sa (Some k) <> Ok r.
+Proof. exact plot_vertices_c_kw. Qed.
+Print Assumptions C16_plot_vertices_kw_raises.
+
+(* ---- the defaults ---- *)
+Theorem C16_default_subset_all : forall N : nat, subset_indices N default_subset = Ok (seq 0 N).
+Proof. exact default_subset_all. Qed.
+Print Assumptions C16_default_subset_all.
+
+Theorem C16_plot_vertices_default_all : forall L : plat,
+  plot_vertices_default L = Ok (map (fun p => (p, [98; 108; 97; 99; 107]%Z)) (ppos L)).
+Proof. exact plot_vertices_default_all. Qed.
+Print Assumptions C16_plot_vertices_default_all.
+
+Theorem C16_plot_edges_default_colour : forall (L : plat) (dr : list (seg * (ustr * Z))),
+  plot_edges_default L = Ok dr ->
+  Forall (fun x => fst (snd x) = [35; 69; 55; 52; 49; 52; 69]%Z /\ snd (snd x) = 0%Z) dr.
+Proof. exact plot_edges_default_colour. Qed.
+Print Assumptions C16_plot_edges_default_colour.
+
+(* ---- non-vacuity ---- *)
+(* a two-vertex lattice whose only edge crosses x = 0 (its unwrapped segment is ex_seg): edge_ok
+   holds, two translates are drawn, the total is 1 *)
+Definition ex_plat : plat := mkPlat [(3#4, 1#4); (1#8, 5#8)] [(0, 1)%nat] [(1, 0)%Z].
+Example C16_plot_edges_total_length_nonvacuous :
+  edge_seg ex_plat 0 = ex_seg /\ edge_ok (edge_seg ex_plat 0) /\
+  exists dr, plot_edges ex_plat default_subset default_labels [7%Z] default_labels = Ok dr /\
+             length dr = 2%nat /\ drawn_total dr == 1.
+Proof.
+  assert (E : edge_seg ex_plat 0 = ex_seg) by (vm_compute; reflexivity).
+  split; [exact E|]. split.
+  - rewrite E. destruct C16_drawn_in_full_nonvacuous as (G & _ & H1 & H2 & H3 & H4 & H5 & H6 & H7 & H8 & _).
+    unfold edge_ok. repeat (split; [assumption|]). exact G.
+  - eexists. split; [vm_compute; reflexivity|]. split; [reflexivity|]. apply Qeqb_iff. vm_compute. reflexivity.
+Qed.
+
+(* plot_dual: the 3x3 square torus (vertices at (1+4i)/12): the dual has 18 edges; dual edge 1 runs from
+   (11/12, 1/4) to (1/4, 1/4) across x = 0 — in generic position, drawn as two pieces *)
+Definition sq3 : lattice := mkLattice 12 [(1, 1); (1, 5); (1, 9); (5, 1); (5, 5); (5, 9); (9, 1); (9, 5); (9, 9)]%Z [(0, 3); (0, 1); (1, 4); (1, 2); (2, 5); (2, 0); (3, 6); (3, 4); (4, 7); (4, 5); (5, 8); (5, 3); (6, 0); (6, 7); (7, 1); (7, 8); (8, 2); (8, 6)]%nat [(0, 0); (0, 0); (0, 0); (0, 0); (0, 0); (0, 1); (0, 0); (0, 0); (0, 0); (0, 0); (0, 0); (0, 1); (1, 0); (0, 0); (1, 0); (0, 0); (1, 0); (0, 1)]%Z.
+Definition sq3_dual : qlattice := match make_dual sq3 with DualOk D => D | _ => mkQLattice [] [] [] end.
+Example C16_plot_dual_nonvacuous :
+  make_dual sq3 = DualOk sq3_dual /\ length (qedges sq3_dual) = 18%nat /\
+  generic_edge (edge_seg (plat_of_dual sq3_dual) 1) /\
+  exists dr, plot_dual sq3 (SIdx [1%Z]) default_labels [7%Z] default_labels = DPDrawn (Ok dr) /\ length dr = 2%nat.
+Proof.
+  split; [vm_compute; reflexivity|]. split; [vm_compute; reflexivity|]. split.
+  - set (s := edge_seg (plat_of_dual sq3_dual) 1).
+    assert (Xs : px (seg_start s) == -(1#12)) by (apply Qeqb_iff; vm_compute; reflexivity).
+    assert (Ys : py (seg_start s) == 1#4) by (apply Qeqb_iff; vm_compute; reflexivity).
+    assert (Xe : px (seg_end s) == 1#4) by (apply Qeqb_iff; vm_compute; reflexivity).
+    assert (Ye : py (seg_end s) == 1#4) by (apply Qeqb_iff; vm_compute; reflexivity).
+    unfold generic_edge.
+    split; [intros k K; rewrite Xs in K; revert K; apply ex_not_int; intro; simpl; lia|].
+    split; [intros k K; rewrite Ys in K; revert K; apply ex_not_int; intro; simpl; lia|].
+    split; [intros k K; rewrite Xe in K; revert K; apply ex_not_int; intro; simpl; lia|].
+    split; [intros k K; rewrite Ye in K; revert K; apply ex_not_int; intro; simpl; lia|].
+    intros t n m _ _ [_ Hy]. unfold seg_point, lerp in Hy. cbn [py snd] in Hy.
+    fold (py (seg_start s)) in Hy. fold (py (seg_end s)) in Hy. rewrite Ys, Ye in Hy.
+    assert (K : 1#4 == inject_Z m) by lra. revert K. apply ex_not_int. intro; simpl; lia.
+  - eexists. split; [vm_compute; reflexivity|reflexivity].
+Qed.
+
+(* colour keyword: 'black' fits the default scheme's width 7 and arrives intact *)
+Example C16_resolve_scheme_kw_nonvacuous :
+  resolve_scheme default_scheme (Some [98; 108; 97; 99; 107]%Z)
+  = Ok ([98; 108; 97; 99; 107]%Z :: tl colourblind_friendly_scheme) /\
+  ustr_width colourblind_friendly_scheme = 7%nat.
+Proof. split; vm_compute; reflexivity. Qed.
